@@ -360,7 +360,7 @@ func checkCodecs(c *core.Ctx, rule string, parts map[string]bool) {
 			ctor := c.Func("fix", sp.Ctor)
 			if c.Anchor("constructor "+sp.Ctor, ctor != nil, sp.Ctor, posOf(ctor)) {
 				lit := constructorLiteral(ctor)
-				ok := lit["value"] == ctor.Params[0].Name() && (raw || lit["valid"] == "true")
+				ok := lit["value"] == an.Render(ctor.Params[0]) && (raw || lit["valid"] == "true")
 				c.Check(ok, rule, sp.Ctor, "yields a populated value holding its argument", ctor.Pos(), fmt.Sprint(lit),
 					fmt.Sprintf("%s builds %v: the value it returns reports IsNull() and the field is silently dropped from the message", sp.Ctor, lit))
 			}
